@@ -66,6 +66,10 @@ func (m *c04Model) delPrefix(p []byte) {
 
 func c04Cat(a, b []byte) []byte { return append(append([]byte{}, a...), b...) }
 
+// c04Spare copies b into a slice with spare capacity: callers of the API may pass such slices, and an
+// implementation that appends to them (instead of copying) aliases its views.
+func c04Spare(b []byte) []byte { return append(make([]byte, 0, len(b)+8), b...) }
+
 type c04World struct {
 	root   kvstore.KVStore // possibly wrapped root view
 	raw    *mapDB
@@ -107,17 +111,17 @@ func c04Setup() *c04World {
 		w.view = w.root
 	case 1: // WithRealm, realm of length 0..2
 		r := verifrt.Bytes("r", 2)
-		w.view, err = w.root.WithRealm(append([]byte{}, r...))
+		w.view, err = w.root.WithRealm(c04Spare(r))
 		w.realm = r
 	case 2: // nested: WithRealm(1 byte) then WithExtendedRealm(0..1 byte)
 		ra, rb := verifrt.BytesN("ra", 1), verifrt.Bytes("rb", 1)
-		v1, err1 := w.root.WithRealm(append([]byte{}, ra...))
+		v1, err1 := w.root.WithRealm(c04Spare(ra))
 		verifrt.Assert(err1 == nil, "WithRealm fails on an open store")
-		w.view, err = v1.WithExtendedRealm(append([]byte{}, rb...))
+		w.view, err = v1.WithExtendedRealm(c04Spare(rb))
 		w.realm = c04Cat(ra, rb)
 	case 3: // extended realm on the root view (empty base realm)
 		r := verifrt.BytesN("r", 1)
-		w.view, err = w.root.WithExtendedRealm(append([]byte{}, r...))
+		w.view, err = w.root.WithExtendedRealm(c04Spare(r))
 		w.realm = r
 	}
 	verifrt.Assert(err == nil && w.view != nil, "view creation fails on an open store")
@@ -452,4 +456,51 @@ func H_C04_hist() {
 	}) == nil, "Iterate fails on an open store")
 	verifrt.Assert(seen == len(model.e), "history: final iteration does not report exactly the model's keys")
 	verifrt.Cover("hist")
+}
+
+// H_C04_siblings: two sibling views derived from one parent view (whose realm slice has spare capacity) stay
+// independent: creating and using the second must not change what the first one sees.
+//
+//verif:h prop=C04 p.wrappers=2/4 cover=siblings runs=400000
+func H_C04_siblings() {
+	raw := NewMapDB()
+	root := kvstore.KVStore(raw)
+	switch verifrt.Choose("wrapper", verifrt.Param("wrappers", 2)) {
+	case 1:
+		root = flushkv.New(debug.New(raw, func(debug.Command, ...[]byte) {}))
+	case 2:
+		root = flushkv.New(raw)
+	case 3:
+		root = debug.New(raw, func(debug.Command, ...[]byte) {})
+	}
+	pr := verifrt.BytesN("parent", 1)
+	var parent kvstore.KVStore
+	var err error
+	if verifrt.Choose("parentVia", 2) == 0 {
+		parent, err = root.WithRealm(c04Spare(pr))
+	} else {
+		parent, err = root.WithExtendedRealm(c04Spare(pr))
+	}
+	verifrt.Assert(err == nil, "view creation fails on an open store")
+	ra, rb := verifrt.BytesN("a", 1), verifrt.BytesN("b", 1)
+	verifrt.Assume(ra[0] != rb[0])
+	childA, errA := parent.WithExtendedRealm(c04Spare(ra))
+	verifrt.Assert(errA == nil, "view creation fails on an open store")
+	k, va, vb := verifrt.BytesN("k", 1), verifrt.BytesN("va", 1), verifrt.BytesN("vb", 1)
+	verifrt.Assert(childA.Set(append([]byte{}, k...), append([]byte{}, va...)) == nil, "Set fails on an open store")
+	childB, errB := parent.WithExtendedRealm(c04Spare(rb))
+	verifrt.Assert(errB == nil, "view creation fails on an open store")
+	verifrt.Assert(childB.Set(append([]byte{}, k...), append([]byte{}, vb...)) == nil, "Set fails on an open store")
+	verifrt.Assert(bytes.Equal(childA.Realm(), c04Cat(pr, ra)) && bytes.Equal(childB.Realm(), c04Cat(pr, rb)) && bytes.Equal(parent.Realm(), pr),
+		"creating a sibling view changed the realm of an existing view")
+	ga, ea := childA.Get(append([]byte{}, k...))
+	gb, eb := childB.Get(append([]byte{}, k...))
+	verifrt.Assert(ea == nil && bytes.Equal(ga, va), "a view no longer sees its own write after a sibling view was created and used")
+	verifrt.Assert(eb == nil && bytes.Equal(gb, vb), "the second sibling view does not see its own write")
+	full, ef := root.Get(c04Cat(c04Cat(pr, ra), k))
+	verifrt.Assert(ef == nil && bytes.Equal(full, va), "the root view does not see the entry under realm||key")
+	verifrt.Assert(childA.Clear() == nil, "Clear fails on an open store")
+	_, eb = childB.Get(append([]byte{}, k...))
+	verifrt.Assert(eb == nil, "Clear on one view removed a sibling view's entry")
+	verifrt.Cover("siblings")
 }
